@@ -46,6 +46,8 @@ def case_strategy(draw, tier):
         # a joining filter with an output may swallow frames (process() returns None): its next recv() is then not coupled to a send
         'join_skip': sorted(draw(st.sets(st.integers(0, 15), max_size=4))),
         'join_low_latency': draw(st.sampled_from([None, None, True])),
+        # ... or hand back a deferred result that decides at send time that there is nothing to send (the send happens, publishes nothing)
+        'join_ret': draw(st.sampled_from([None, None, 'callable'])),
         'watch': sorted(draw(st.sets(st.integers(0, nb - 1), max_size=2))),
         'required': draw(st.booleans()),
         'net': draw(scen.net_strategy(max_drops=draw(st.sampled_from([0, 0, 5])))),      # some publishes (single topic messages of a frame) may be lost on the way
@@ -71,7 +73,8 @@ def build_nodes(case):
         nodes.append({'id': wid, 'sources': [{'from': split, 'k': i}], 'beh': {'kind': 'xf', 'work': case['worker_work'][i], 'topics': case['worker_topics']},
                       'start': st_[2 + i], 'required': ['J'] if case['required'] else None})
     nodes.append({'id': 'J', 'sources': [{'from': w, 'k': 0} for w in workers], 'sbal': True, 'nout': 1 if case['join_relay'] else 0,
-                  'beh': {'kind': 'xf' if case['join_relay'] else 'sink', 'work': case['join_work'], 'skip': case.get('join_skip') if case['join_relay'] else None},
+                  'beh': {'kind': 'xf' if case['join_relay'] else 'sink', 'work': case['join_work'], 'skip': case.get('join_skip') if case['join_relay'] else None,
+                          **({'ret': case['join_ret']} if case.get('join_ret') and case['join_relay'] else {})},
                   'start': st_[6], **({'cfg': {'sources_low_latency': True}} if case.get('join_low_latency') else {})})
     if case['join_relay']:
         nodes.append({'id': 'Z', 'sources': ['J'], 'nout': 0, 'beh': {'kind': 'sink'}, 'start': st_[7]})
@@ -137,6 +140,7 @@ def run_case(case):
     if overlap: classes.append('two workers busy at once')
     if differ: classes.append('unequal worker speeds')
     if case['watch']: classes.append('?? watcher on a branch')
+    if any(r.get('ret') == 'callable_none' for r in jcalls): classes.append('joiner handed back a deferred result that yields nothing')
     used = len(set(seen.values()))
     classes.append(f'{used} workers used')
     return ok(overlap and differ and len(jcalls) >= 3, classes, {'joined': len(jcalls), 'of': case['n'], 'workers_used': used})
